@@ -58,3 +58,61 @@ PROPS["C20"] = dict(
           ["(oracle only) harness validator bep42_valid + reference CRC-32C"], role="oracle-validation"),
     ],
 )
+
+PROPS["C10"] = dict(
+    design_ref="DESIGN.md 4 (C10)",
+    stubs=[CLOCK],
+    assumptions=["events reach a contact only while it is reported (find_node_mut filters on pingable) - mirrored in the harness",
+                 "a contact dropped as bad and named again by hearsay starts a new history as questionable (DESIGN.md F12)"],
+    outside=["that handler.rs calls remote_request only for known nodes; load_contacts wiring; interleavings across contacts"],
+    harnesses=[
+        H("c10_history_k4", "node", Q, 900,
+          "every history of 4 events per contact, each event symbolic in {answer, hearsay, query received, query sent, wait d} "
+          "with d symbolic in [0, 40 min] at 1 ns resolution; first contact as responder or by hearsay; clock start symbolic",
+          "k = 4 events (shorter histories included as zero waits); unwind 21 (20-byte id memcmp)",
+          ["Node::as_good", "Node::as_questionable", "Node::update", "Node::local_request", "Node::remote_request",
+           "Node::status", "Node::is_pingable"]),
+        H("c10_fifteen_minute_boundary", "node", Q, 300,
+          "time since last answer / last received query symbolic in [14 min, 16 min] at 1 ns resolution",
+          "one contact, one wait", ["Node::status", "Node::remote_request"]),
+        H("c10_history_k5", "node", T, 3000, "as k4 with 5 events", "k = 5; unwind 21",
+          ["Node::update", "Node::local_request", "Node::remote_request", "Node::status"]),
+    ],
+)
+
+SLOT = ("slot state symbolic: never answered (what status() sees in an empty slot) or answered/queried at symbolic ages, "
+        "0..3 unanswered queries; identities concrete and pairwise distinct")
+COARSE = "ages from {0, 899, 900, 3600} s"
+FINE = "ages every second in [0, 2 h]"
+
+
+def _c08(name, tiers, tmo, which, fill, offer, ages):
+    return H(name, "bucket", tiers, tmo,
+             f"slots {which} arbitrary ({SLOT}; {ages}), other slots {fill}; offer symbolic in {{good, questionable, bad}} of {offer}",
+             "one Bucket::add_node from an arbitrary state (inductive step, any history length); unwind 21",
+             ["Bucket::add_node", "Node::update", "Node::status", "Node::as_good", "Node::as_questionable", "Node::as_bad"])
+
+
+PROPS["C08"] = dict(
+    design_ref="DESIGN.md 4 (C08)",
+    stubs=[CLOCK],
+    assumptions=["representation invariant of the pre-state: live handles in a bucket are pairwise distinct (re-asserted after the step)",
+                 "a free slot is represented either by Bucket::new's placeholder or by a never-answered node with a unique identity "
+                 "(add_node treats both alike unless the offered identity equals it); slot occupancy is concrete per harness "
+                 "(DESIGN.md F21: CBMC mis-simplifies references into array-of-struct elements at a symbolic index)"],
+    outside=["table-level split across more than the modelled buckets (see the table harnesses)"],
+    harnesses=[
+        _c08("c08_bucket_lo4_ph_fresh", Q, 900, "0..3", "Bucket::new placeholders", "an identity not in the bucket", COARSE),
+        _c08("c08_bucket_lo4_ph_repeat2", Q, 900, "0..3", "Bucket::new placeholders", "the identity stored in slot 2", COARSE),
+        _c08("c08_bucket_hi4_good_fresh", Q, 900, "4..7", "good nodes", "an identity not in the bucket", COARSE),
+        _c08("c08_bucket_hi4_questionable_fresh", Q, 900, "4..7", "questionable nodes", "an identity not in the bucket", COARSE),
+        _c08("c08_bucket_lo4_questionable_repeat0", Q, 900, "0..3", "questionable nodes", "the identity stored in slot 0", COARSE),
+        _c08("c08_bucket_all8_fresh", T, 3000, "0..7 (all)", "-", "an identity not in the bucket", COARSE),
+        _c08("c08_bucket_all8_repeat0", T, 3000, "0..7 (all)", "-", "the identity stored in slot 0", COARSE),
+        _c08("c08_bucket_all8_repeat5", T, 3000, "0..7 (all)", "-", "the identity stored in slot 5", COARSE),
+        _c08("c08_bucket_all8_repeat7", T, 3000, "0..7 (all)", "-", "the identity stored in slot 7", COARSE),
+        _c08("c08_bucket_fine_lo4_ph_fresh", T, 3000, "0..3", "Bucket::new placeholders", "an identity not in the bucket", FINE),
+        _c08("c08_bucket_fine_hi4_questionable_fresh", T, 3000, "4..7", "questionable nodes", "an identity not in the bucket", FINE),
+        _c08("c08_bucket_fine_lo4_good_repeat1", T, 3000, "0..3", "good nodes", "the identity stored in slot 1", FINE),
+    ],
+)
